@@ -127,3 +127,12 @@ Lemma one_atomic_access_each :
   map (fun '(_, g) => atomic_calls_of g) (tl fns)
   = [["fetch_max"]; ["fetch_max"]; ["fetch_add"]; ["load"]; ["store"]; ["swap"]].
 Proof. vm_compute. reflexivity. Qed.
+
+(* the comparisons the two updates make are the derived ones: ReloadId is a one-field tuple struct
+   over usize deriving PartialEq, Eq, PartialOrd and Ord, so ids compare as the numbers they wrap
+   (what the interpreted ties above assume of `>` on ids) *)
+Definition derives (f : fn_def) (t : string) : bool :=
+  existsb (fun e => match e with EPath [n] => String.eqb n t | _ => false end) (fn_body f).
+Lemma reload_ids_compare_as_numbers :
+  forallb (derives ReloadId_derives) ["PartialEq"; "Eq"; "PartialOrd"; "Ord"] = true.
+Proof. vm_compute. reflexivity. Qed.
